@@ -164,18 +164,36 @@ const findingSave = "C26-save-below-zero"
 // programSaveExceeds is the signature of C26-save-below-zero: a fixed-amount
 // save larger than the balance the account starts with.
 func programSaveExceeds(p *Program) bool {
+	// what earlier saves of the script have left of each (account, asset) balance the script starts with
+	left := map[string]*bigInt{}
 	for i := range p.Stmts {
 		s := &p.Stmts[i]
-		if s.Kind != StSave || s.All {
+		if s.Kind != StSave {
 			continue
 		}
-		bal := new(bigInt)
-		if v, ok := p.Balances[s.Acc.Addr][s.Mon.Asset]; ok {
-			bal = v
+		asset := s.Asset
+		if !s.All {
+			asset = s.Mon.Asset
+		}
+		key := s.Acc.Addr + "\x00" + asset
+		bal, seen := left[key]
+		if !seen {
+			bal = new(bigInt)
+			if v, ok := p.Balances[s.Acc.Addr][asset]; ok {
+				bal = new(bigInt).Set(v)
+			}
+		}
+		if s.All {
+			if bal.Sign() > 0 {
+				bal = new(bigInt)
+			}
+			left[key] = bal
+			continue
 		}
 		if s.Mon.Amount.Cmp(bal) > 0 {
 			return true
 		}
+		left[key] = new(bigInt).Sub(bal, s.Mon.Amount)
 	}
 	return false
 }
@@ -327,6 +345,14 @@ func TestC26(t *testing.T) {
 		if diff == findingMerge {
 			st.Excluded(findingMerge)
 			st.Case(p.Key(), false, nil, append(classes, "excluded:"+findingMerge)...)
+			st.Add("completed_checks", 1)
+			return
+		}
+		if diff != "" && strings.Contains(diff, "machine: parseErr=compilation error") && strings.Contains(diff, "is already empty at this stage") {
+			// the machine's compiler refuses, statically, a source that names an account it has already emptied; the
+			// generator avoids such sources but gives up after a few draws (and inside `max ... from`). Such a program is
+			// outside the subset both runtimes support, which is what the property quantifies over: counted, not compared
+			st.Case(p.Key(), false, nil, append(classes, "outside-common-subset:account-named-twice-in-a-source")...)
 			st.Add("completed_checks", 1)
 			return
 		}
